@@ -2,41 +2,55 @@
 context (transitively), substituted faithfully.
 
 A generated *symbol program* (definitions of all 13 types, uses in type-demanding contexts, in setup / act /
-before-assert / assert / cleanup, phases in any file order, possibly written in several pieces) is run through the
-CLI with --keep.  The reference interpreter `vlib/ref/c08_symbols.py` (a transcription of the manual, independent of
-exactly_lib) decides VALIDATION_ERROR vs accepted; for accepted programs it predicts what the probes receive (argv,
-stdin, C08_* environment variables), what `file uK.txt = TEXT-SOURCE` / `dir uK = FILES-SOURCE` leave in the kept
-sandbox, what the shell command lines were, and what the act process receives (command line actor and file
-interpreter actor).  On rejection nothing may have run: no marker, no probe record, no shell output, no sandbox.
+before-assert / assert / cleanup, phases in any file order, possibly written in several pieces, parts of it in
+included files - also nested ones and ones that hold other phases - or in the suite the case belongs to) is run
+through the CLI with --keep.  The reference interpreter `vlib/ref/c08_symbols.py` (a transcription of the manual,
+independent of exactly_lib) decides VALIDATION_ERROR vs accepted; for accepted programs it predicts what the probes
+receive (argv, stdin, C08_* environment variables), what `file uK.txt = TEXT-SOURCE` / `dir uK = FILES-SOURCE` /
+`file PATH = ...` / `dir PATH` leave in the kept sandbox, what the shell command lines were, and what the act process
+receives (command line actor and file interpreter actor).  On rejection nothing may have run: no marker, no probe
+record, no shell output, no sandbox (not even one that is removed again).
 
 Sub-checks: `matrix` (exhaustive: syntactic context x defined type x chain of indirection), `scope` (exhaustive:
-definition phase x use phase x order x file order / split phases; duplicates; builtin names), `programs` (random
-symbol programs with at most one fault).
+definition phase x use phase x order x file order / split phases / included files / suite contents; duplicates; builtin
+names), `values` (exhaustive: pairs of base values - empty string / list, elements with spaces, paths - combined by
+splicing, inside an element, inside a string, twice), `programs` (random symbol programs with at most one fault); `symbol_cmd_scope`, `symbol_cmd`, `symbol_listing`
+and the coverage-guided `symbol_listing_fuzz`: the same programs given to `exactly symbol CASE [NAME [--ref]]` - same
+accept/reject decision, every definition listed with type and number of references, nothing executed.
 """
 import os
+import re
 
-from vlib import driver
+from vlib import driver, fuzz
 from vlib.gen import c08_gen, c08_render
 from vlib.ref import c08_symbols as ref
 from vlib.runner import Sub, Verdict, fail
 
 PROPERTY_ID = 'C08'
 LEVEL = 'exploration'
-RULE = ('cases = symbol programs: <= 8 items (def of any of the 13 types with values that reference earlier symbols - '
-        'strings also as `:> text` and here-documents, programs also as shell command lines, text sources also as '
-        '-stdout-from PROGRAM, matchers/transformers also as `run PROGRAM` - or uses: file / dir / env / stdin / timeout '
-        '/ run / the instructions `%` and `$` / assert-phase matcher uses, act line with arguments, a shell command '
-        'or a program symbol) over 7 names + builtins, phases in any file order and optionally written in several '
-        'pieces; random programs are valid by construction and then get at most one fault (definition moved later, '
-        'use moved earlier, duplicate, builtin name, reference retargeted / undefined, definition dropped, act refers '
-        'to a later phase, item moved, a string that a strings-only context depends on made impure); plus the '
-        'exhaustive (114 contexts x 13 defined types x 7 chains) matrix and the exhaustive definition-phase x '
-        'use-phase x order x file-order (incl. split phases) table; non-trivial = the program contains at least one '
-        'reference or a duplicate definition; distinct = distinct program')
+RULE = ('cases = symbol programs: <= 8 items (thorough: <= 12 items over 11 names) (def of any of the 13 '
+        'types with values that reference earlier symbols - strings also as `:> text` and here-documents, '
+        'programs also as shell command lines, text sources also as -stdout-from PROGRAM, '
+        'matchers/transformers also as `run PROGRAM` - or uses: file / dir / env / stdin / timeout / run / '
+        'the instructions `%` and `$` / assert-phase matcher uses, act line with arguments, a shell command '
+        'or a program symbol; `file PATH` / `dir PATH` / `exists ! PATH` with the symbol in the PATH '
+        'argument, `-contents-of PATH`, `exit-code|stdout -from PROGRAM`, `env "NAME" = ...`) over 7 names + '
+        'builtins, phases in any file order and optionally written in several pieces, ranges of items '
+        'optionally moved into included files (plain / with own phase header / nested in another directory / '
+        'together with the following phase) or into the sections of `exactly.suite`; random programs are '
+        'valid by construction and then get at most one fault (definition moved later, use moved earlier, '
+        'duplicate, builtin name, reference retargeted / undefined, definition dropped, act refers to a later'
+        ' phase, item moved, a string that a strings-only context depends on made impure); plus the '
+        'exhaustive (138 contexts x 13 defined types x 7 chains, depth 3-4 chains for 26 contexts - thorough:'
+        ' all) matrix and the exhaustive definition-phase x use-phase x order x file-order (incl. split '
+        'phases, included files, suite contents) table; the same programs are also given to `exactly symbol`;'
+        ' non-trivial = the program contains at least one reference or a duplicate definition; distinct = '
+        'distinct program')
 ASSUMPTIONS = [
     'the per-context type demands are transcribed from the SYMBOL-REFERENCE paragraphs of `help syntax STRING|LIST|'
     'PROGRAM-ARGUMENT|TEXT-SOURCE|PATH|<logic type>`',
-    'INTEGER, the FILE-NAME of a PATH and the FILE-NAMEs of FILES-SOURCE / FILES-CONDITION literals are documented '
+    'INTEGER, the FILE-NAME of a PATH, the FILE-NAMEs of FILES-SOURCE / FILES-CONDITION literals and the NAME of `env` '
+    'are documented '
     'just as STRING while the program demands "strings only, transitively" there (its error messages say so); the '
     'check calibrates the reading on the direct case (a list referenced directly) and then demands the *same* '
     'reading at every depth of indirection, as the property statement requires ("transitively")',
@@ -47,8 +61,9 @@ ASSUMPTIONS = [
     'FILE-NAME of a file list that is empty / absolute / contains ".." / ":" / ";" - are outside the property: for '
     'programs that contain one the check accepts VALIDATION_ERROR as well as acceptance (and HARD_ERROR when the '
     'invalid REGEX contains a sandbox path, which cannot be known before the sandbox exists)',
-    'values whose semantics are outside the property (filter/replace/strip transformers, OS_PATH_SEP, arguments '
-    'appended to a shell command line) are not predicted; observations that depend on them are skipped (label '
+    'values whose semantics are outside the property (filter transformers, OS_PATH_SEP, arguments '
+    'appended to a shell command line) are not predicted (replace / strip / char-case are: the REGEX and the '
+    'replacement are strings with references); observations that depend on them are skipped (label '
     'value-unknown); the generators never append arguments to a shell command line (ref.normalise)',
     'how often a program inside a value runs is checked only where the manual fixes it: not for `env NAME = '
     '-stdout-from ...` (one run per environment, C11), `stdin = ...` of [setup] (produced at the instruction or when '
@@ -56,9 +71,18 @@ ASSUMPTIONS = [
     'here-documents are not generated as arguments inside [act] (its lines belong to the actor: an empty line of the '
     'here-document is dropped there - C10)',
     'current directory = act directory in every phase (no cd is generated), so -rel-cd paths have one value',
+    'a path symbol whose relativity is not among the "Accepted relativities" of the instruction it is used in (`file`, '
+    '`dir`: act, tmp, cd) - the manual does not say what that means: VALIDATION_ERROR and acceptance both pass',
+    '`exactly symbol`: the manual fixes what is reported (every user defined symbol, its type, its number of '
+    'references; for NAME the definition, with --ref the references), not the layout: a listing line is read as '
+    'TYPE (N) NAME, the definition report must name the phase of the definition ("In [PHASE]"), the resolved value '
+    'of string / list symbols that are built without paths must appear as the program prints such values ("String of '
+    'N characters" + the text, "List of N elements" + numbered elements), --ref prints one "In [PHASE]" block per '
+    'reference; arguments validated by value are not validated by `symbol` ("the case is not executed")',
 ]
 
 _READING = {}
+_FAKE_SDS = '/SDS'
 
 
 def _calibration_case(ctx):
@@ -72,6 +96,8 @@ def _calibration_case(ctx):
         items['setup'].append(g._def('path', 'Z', {'rel': None, 'name': g.S(x, '/n')}))
     elif ctx == 'pathcomp':
         items['setup'].append(g._def('path', 'Z', {'rel': 'tmp', 'name': g.S('n/', x)}))
+    elif ctx == 'envname':
+        items['setup'].append({'k': 'env', 's': {'c': 'str', 's': g.S('v'), 't': None}, 'name': g.S('n', x, q='s')})
     elif ctx == 'fname':
         items['setup'].append(g._def('files-source', 'Z', {'c': 'set', 'e': [{'k': 'file', 'n': g.S('f1', x),
                                                                               's': None}]}))
@@ -86,7 +112,7 @@ def reading():
         rd = {}
         for ctx in ref.STRICT_CONTEXTS:
             with driver.Workspace() as ws:
-                ws.write('t.case', c08_render.render(_calibration_case(ctx)))
+                ws.write_files(c08_render.render_files(_calibration_case(ctx)))
                 r = driver.run_inproc(ws, ['t.case'])
             ident = r.out.strip()
             if ident == 'VALIDATION_ERROR':
@@ -148,7 +174,7 @@ def _feature_labels(case):
             elif c == 'run':
                 found.add('form:run-program-in-matcher-or-transformer')
             k = x.get('k')
-            if k in ('env', 'stdin', 'timeout', 'dir', 'file', 'run', 'assert'):
+            if k in ('env', 'stdin', 'timeout', 'dir', 'file', 'run', 'assert', 'fileat', 'dirat', 'nexists', 'from'):
                 found.add('instr:' + ('bare-%-or-$' if (k == 'run' and x.get('bare')) else k))
             for key in sorted(x):
                 walk(x[key])
@@ -159,6 +185,19 @@ def _feature_labels(case):
     walk(case.get('items'))
     walk(case.get('act'))
     return sorted(found)
+
+
+def _make_source_files(ws, case, val, rd):
+    """The files that -contents-of reads (those inside the home directory: their paths do not depend on the sandbox)"""
+    if val.error is not None:
+        return
+    roots = {'home': ws.home, 'act-home': ws.home, 'here': ws.home, 'act': _FAKE_SDS + '/act',
+             'tmp': _FAKE_SDS + '/tmp', 'result': _FAKE_SDS + '/result', 'cd': _FAKE_SDS + '/act'}
+    pre = ref.evaluate(case, roots, rd)
+    if 'source-file' in pre.soft:
+        return
+    for rel, text in sorted(pre.sources.items()):
+        ws.write(rel, text, subst=False)
 
 
 def check(case) -> Verdict:
@@ -177,6 +216,12 @@ def check(case) -> Verdict:
                             'probe-file-actor' if c08_render.file_actor(case['act']) else case['act']['c']))
     labels.append('file-order:' + ('canonical' if list(case['order']) == ref.EXEC_ORDER else
                                    'split' if len(case['order']) > len(ref.EXEC_ORDER) else 'permuted'))
+    files = c08_render.render_files(case)
+    if len([fn for fn in files if fn.endswith('.xly')]):
+        labels.append('layout:included-files')
+        labels.extend(sorted(set('layout:include-' + sp.get('m', 'plain') for sp in case.get('inc') or [])))
+    if c08_render.SUITE_FILE in files:
+        labels.append('layout:suite-contents')
     labels.extend(sorted(val.features))
     labels.extend(_feature_labels(case))
     labels.extend(_order_labels(case, val))
@@ -187,9 +232,12 @@ def check(case) -> Verdict:
         labels.append('matrix:%s:%s:%s' % (ctx, found, 'ok' if ok else 'bad'))
     if val.error:
         labels.append('err:' + val.error['kind'])
+    if case.get('tag', '').startswith('matrix'):
+        labels.append('mctx:%s:%s' % (case['tag'].split('/')[1], 'rejected' if val.error else 'accepted'))
 
     with driver.Workspace() as ws:
-        ws.write('t.case', text)
+        ws.write_files(files)
+        _make_source_files(ws, case, val, rd)
         for name, stdout in sorted(ref.PROBE_STDOUT.items()):
             if stdout:
                 ws.probe_cfg(name, stdout=stdout)
@@ -218,6 +266,7 @@ def check(case) -> Verdict:
             out = ref.evaluate(case, roots, rd)
         observed_files = {}
         observed_dirs = {}
+        observed_abs = {}
         if sds is not None and out is not None:
             act_dir = os.path.join(sds, 'act')
             for fn in out.files:
@@ -230,9 +279,17 @@ def check(case) -> Verdict:
             for dn in out.dirs:
                 p = os.path.join(act_dir, dn)
                 observed_dirs[dn] = driver.tree_snapshot(p) if os.path.isdir(p) else '<missing>'
+            for p in out.abs_files:
+                try:
+                    with open(p, 'rb') as f:
+                        observed_abs[p] = f.read().decode('utf-8', errors='replace')
+                except OSError as ex:
+                    observed_abs[p] = '<missing: %s>' % type(ex).__name__
+            for p in out.abs_dirs:
+                observed_abs[p] = '<dir>' if os.path.isdir(p) else '<missing>'
 
     detail = {'case_text': text, 'identifier': ident, 'exit': r.exit_code, 'stdout': r.out[:300],
-              'stderr': r.err[:900], 'markers': markers, 'sandboxes': r.sandboxes,
+              'stderr': r.err[:900], 'markers': markers, 'sandboxes': r.sandboxes, 'created_dirs': r.created_dirs,
               'first_error_by_reference': val.error, 'reading': rd}
 
     def bad(bucket, **extra):
@@ -249,8 +306,8 @@ def check(case) -> Verdict:
         labels.append('verdict:rejected')
     elif soft:
         expect = {'VALIDATION_ERROR', 'PASS'}
-        if 'regex-invalid-sandbox-path' in soft:
-            expect.add('HARD_ERROR')  # cannot be known before the sandbox exists
+        if 'regex-invalid-sandbox-path' in soft or 'source-file' in soft:
+            expect.add('HARD_ERROR')  # cannot be known before the sandbox exists / a file that is not there
         labels.append('verdict:either(value-validated-argument)')
         labels.extend('soft:' + s for s in soft)
     else:
@@ -265,9 +322,13 @@ def check(case) -> Verdict:
     if r.exit_code != driver.EXIT_IDENTIFIERS.get(ident):
         return bad('exit-code/%s' % ident)
 
+    if ident == 'VALIDATION_ERROR' and 'source-file' in soft:
+        # a missing source file in the sandbox is found after [setup]: not a symbol matter
+        return Verdict(True, nontrivial=nontrivial, labels=labels, sample={'case_text': text, 'identifier': ident})
     if ident == 'VALIDATION_ERROR':
         # "reported as VALIDATION_ERROR before anything executes"
-        if markers or any(observed_events.values()) or observed_shell or r.sandboxes or r.out != '':
+        if (markers or any(observed_events.values()) or observed_shell or r.sandboxes or r.created_dirs
+                or r.out != ''):
             return bad('rejected-but-something-executed', observed_events=observed_events,
                        observed_shell=observed_shell)
         return Verdict(True, nontrivial=nontrivial, labels=labels,
@@ -304,6 +365,16 @@ def check(case) -> Verdict:
                     exp_cmp[k] = obs[k]
         if obs != exp_cmp:
             return bad('value/dir-contents', dir=dn, expected=exp_cmp, observed=obs)
+    for p, exp in sorted(out.abs_files.items()):
+        if exp is ref.UNKNOWN:
+            labels.append('value-unknown')
+            if observed_abs[p].startswith('<missing'):
+                return bad('accepted/file-at-path-missing', path=p)
+        elif observed_abs[p] != exp:
+            return bad('value/file-at-path', path=p, expected=exp, observed=observed_abs[p])
+    for p in out.abs_dirs:
+        if observed_abs[p] != '<dir>':
+            return bad('value/dir-at-path', path=p, observed=observed_abs[p])
     if out.unknown_probes:
         labels.append('invocations-unknown')
     for name in sorted((set(out.events) | set(observed_events)) - out.unknown_probes):
@@ -319,6 +390,9 @@ def check(case) -> Verdict:
                 labels.append('value-unknown')
             elif e['stdin'] != o['stdin']:
                 return bad('value/probe-stdin', probe=name, expected=e['stdin'], observed=o['stdin'])
+            if out.unknown_env:
+                labels.append('value-unknown')
+                continue
             if sorted(e['env']) != sorted(o['env']):
                 return bad('value/probe-env-names', probe=name, expected=e['env'], observed=o['env'])
             for k, v in sorted(e['env'].items()):
@@ -332,7 +406,8 @@ def check(case) -> Verdict:
             labels.append('value-unknown')
         elif exp != observed_shell.get(name, ''):
             return bad('value/shell-command-line', output=name, expected=exp, observed=observed_shell.get(name, ''))
-    n_obs = (len(out.files) + len(out.dirs) + sum(len(v) for v in out.events.values()) + len(out.shell))
+    n_obs = (len(out.files) + len(out.dirs) + sum(len(v) for v in out.events.values()) + len(out.shell)
+             + len(out.abs_files) + len(out.abs_dirs))
     labels.append('observations:%s' % (n_obs if n_obs < 4 else '4+'))
     return Verdict(True, nontrivial=nontrivial, labels=labels,
                    sample={'case_text': text, 'identifier': ident,
@@ -340,13 +415,193 @@ def check(case) -> Verdict:
                            'shell': _json_safe(out.shell)})
 
 
+_LISTING_LINE = re.compile(r'^(\S+)\s+\((\d+)\)\s+(\S+)$')
+
+
+def _nothing_ran(ws, r):
+    """-> description of what was executed / created although nothing may be, or None"""
+    if ws.read_markers():
+        return 'markers'
+    for fn in sorted(os.listdir(ws.obs)):
+        if fn in ('_stdout', '_stderr', 'markers') or fn.endswith('.cfg'):
+            continue
+        return 'observation file ' + fn
+    if r.sandboxes or r.created_dirs:
+        return 'sandbox'
+    return None
+
+
+def check_symbol_listing(case) -> Verdict:
+    """`exactly symbol CASE` only (the cheap part of check_symbol_cmd: the target of the coverage-guided campaign)"""
+    return check_symbol_cmd(case, individual=False)
+
+
+def decode_program(data: bytes):
+    """bytes -> symbol program, through the generator of `programs` (the bytes select among its alternatives)"""
+    if len(data) < 6:
+        return None
+    return c08_gen.program_from_bytes(data)
+
+
+def check_symbol_cmd(case, individual=True) -> Verdict:
+    """`exactly symbol CASE` and `exactly symbol CASE NAME [--ref]` against the reference: same accept / reject
+    decision as running the case, every definition listed with its type and its number of references, the reported
+    definition is the right one (phase, resolved value of strings and lists), and nothing is executed."""
+    case = ref.normalise(case)
+    rd = reading()
+    files = c08_render.render_files(case)
+    text = c08_render.render(case)
+    val = ref.validate(case, rd)
+    defs = ref.definitions(case)
+    nontrivial = len(defs) > 0
+    labels = ['symbols-defined:%s' % (len(defs) if len(defs) < 5 else '5+')]
+    if case.get('tag'):
+        labels.append('enum:' + case['tag'].split('/')[0])
+    if case.get('fault'):
+        labels.append('fault:' + case['fault'])
+    if any(fn.endswith('.xly') for fn in files):
+        labels.append('layout:included-files')
+    if c08_render.SUITE_FILE in files:
+        labels.append('layout:suite-contents')
+    if val.error:
+        labels.append('err:' + val.error['kind'])
+    detail = {'case_text': text, 'first_error_by_reference': val.error, 'reading': rd}
+
+    def bad(bucket, **extra):
+        d = dict(detail)
+        d.update(_json_safe(extra))
+        return fail('symbol-cmd/' + bucket, d, labels=labels, nontrivial=nontrivial)
+
+    soft = []
+    out = None
+    if val.error is None:
+        roots = {'home': '/HOME', 'act-home': '/HOME', 'here': '/HOME', 'act': _FAKE_SDS + '/act',
+                 'tmp': _FAKE_SDS + '/tmp', 'result': _FAKE_SDS + '/result', 'cd': _FAKE_SDS + '/act'}
+        out = ref.evaluate(case, roots, rd)
+        soft = sorted(set(out.soft))
+    with driver.Workspace() as ws:
+        ws.write_files(files)
+        _make_source_files(ws, case, val, rd)
+        r = driver.run_inproc(ws, ['symbol', 't.case'])
+        detail.update({'exit': r.exit_code, 'stdout': r.out[:600], 'stderr': r.err[:600]})
+        if r.exception or r.timed_out:
+            return bad('exception-or-timeout', exception=r.exception)
+        ran = _nothing_ran(ws, r)
+        if ran:
+            return bad('something-executed', what=ran)
+        ident = r.first_err_line if r.exit_code != 0 else 'OK'
+        if val.error is not None:
+            expect = {'VALIDATION_ERROR'}
+        elif soft:
+            expect = {'OK', 'VALIDATION_ERROR'}
+        else:
+            expect = {'OK'}
+        if ident not in expect:
+            return bad('verdict/%s/%s' % ('rejected:' + val.error['kind'] if val.error else 'accepted', ident),
+                       expected=sorted(expect), soft=soft)
+        if ident != 'OK':
+            if r.exit_code != driver.EXIT_IDENTIFIERS.get(ident) or r.out != '':
+                return bad('rejected/exit-code-or-stdout')
+            labels.append('verdict:rejected')
+            return Verdict(True, nontrivial=nontrivial, labels=labels,
+                           sample={'case_text': text, 'identifier': ident})
+        labels.append('verdict:listed')
+        counts = ref.reference_counts(case)
+        exp_lines = sorted([t, counts.get(n, 0), n] for t, n, _ph in defs)
+        obs_lines = []
+        for line in r.out.splitlines():
+            m = _LISTING_LINE.match(line.strip())
+            if not m:
+                return bad('listing/unreadable-line', line=line)
+            obs_lines.append([m.group(1), int(m.group(2)), m.group(3)])
+        if sorted([t, n] for t, _c, n in obs_lines) != sorted([t, n] for t, _c, n in exp_lines):
+            return bad('listing/symbols-and-types', expected=exp_lines, observed=sorted(obs_lines))
+        if sorted(obs_lines) != exp_lines:
+            return bad('listing/reference-counts', expected=exp_lines, observed=sorted(obs_lines))
+        if [n for _t, _c, n in obs_lines] == [n for _t, n, _ph in defs]:
+            labels.append('listing-order:execution-order')
+        # the individual reports
+        targets = [(t, n, ph) for t, n, ph in defs] if individual else []
+        b = sorted(n for n in counts if n in ref.BUILTIN_TYPES)
+        if b and individual:
+            targets.append((ref.BUILTIN_TYPES[b[0]], b[0], None))
+        for t, n, ph in targets:
+            r1 = driver.run_inproc(ws, ['symbol', 't.case', n])
+            r2 = driver.run_inproc(ws, ['symbol', 't.case', n, '--ref'])
+            for rr in (r1, r2):
+                if rr.exception or rr.timed_out or rr.exit_code != 0:
+                    return bad('individual/failed', name=n, exit=rr.exit_code, out=rr.out[:400], err=rr.err[:400],
+                               exception=rr.exception)
+                ran = _nothing_ran(ws, rr)
+                if ran:
+                    return bad('individual/something-executed', what=ran, name=n)
+            lines = r1.out.splitlines()
+            m = _LISTING_LINE.match(lines[0].strip()) if lines else None
+            if not m or [m.group(1), int(m.group(2)), m.group(3)] != [t, counts.get(n, 0), n]:
+                return bad('individual/head-line', name=n, expected=[t, counts.get(n, 0), n], out=r1.out[:400])
+            if ph is not None and ('In [%s]' % ph) not in lines:
+                return bad('individual/phase-of-definition', name=n, expected=ph, out=r1.out[:600])
+            n_blocks = sum(1 for l in r2.out.splitlines() if l.startswith('In ['))
+            if n_blocks != counts.get(n, 0):
+                return bad('individual/number-of-reported-references', name=n, expected=counts.get(n, 0),
+                           out=r2.out[:900])
+            if ph is not None and t in ('string', 'list') and ref.path_free(n, out.table):
+                v = out.table[n].value
+                if v is ref.UNKNOWN:
+                    labels.append('value-unknown')
+                    continue
+                labels.append('value-compared:' + t)
+                if t == 'string':
+                    head = 'String of %d character%s' % (len(v), '' if len(v) == 1 else 's')
+                    ok_v = head in lines and (v == '' or r1.out.endswith('\n' + v + '\n'))
+                else:
+                    head = 'List of %d element%s' % (len(v), '' if len(v) == 1 else 's')
+                    ok_v = head in lines
+                    tail = r1.out[r1.out.index(head) + len(head):] if ok_v else ''
+                    pos = 0
+                    for k, el in enumerate(v):
+                        at = tail.find('%d  %s' % (k + 1, el), pos)
+                        if at < 0:
+                            ok_v = False
+                            break
+                        pos = at + 1
+                if not ok_v:
+                    return bad('individual/value/' + t, name=n, expected=v, out=r1.out[:900])
+    return Verdict(True, nontrivial=nontrivial, labels=labels,
+                   sample={'case_text': text, 'listing': exp_lines})
+
+
 def render_case(case):
     return {'case_text': c08_render.render(ref.normalise(case))}
+
+
+def _programs(tier):
+    if tier == 'thorough':
+        return c08_gen.programs(max_items=12, names=tuple(c08_gen.MORE_NAMES))
+    return c08_gen.programs()
 
 
 SUBS = [
     Sub('matrix', check, enumerate=c08_gen.matrix_cases, exhaustive=True, render=render_case),
     Sub('scope', check, enumerate=c08_gen.scope_cases, exhaustive=True, render=render_case),
-    Sub('programs', check, strategy=lambda tier: c08_gen.programs(), budget={'quick': 4000, 'thorough': 150000},
+    Sub('values', check, enumerate=c08_gen.values_cases, exhaustive=True, render=render_case),
+    Sub('programs', check, strategy=lambda tier: _programs(tier), budget={'quick': 4000, 'thorough': 120000},
         render=render_case),
+    Sub('symbol_cmd_scope', check_symbol_cmd, enumerate=c08_gen.scope_cases, exhaustive=True, render=render_case),
+    Sub('symbol_cmd', check_symbol_cmd, strategy=lambda tier: _programs(tier),
+        budget={'quick': 1500, 'thorough': 30000}, render=render_case),
+    Sub('symbol_listing', check_symbol_listing, strategy=lambda tier: _programs(tier),
+        budget={'quick': 500, 'thorough': 20000}, render=render_case),
+    fuzz.fuzz_sub('symbol_listing_fuzz', 'props.c08_symbols', 'check_symbol_listing', 'decode_program',
+                  'symbol_listing', runs={'quick': 2400, 'thorough': 128000}, shards={'quick': 4, 'thorough': 16},
+                  max_len=200,
+                  instrument=('exactly_lib.execution.impl.symbol_validation',
+                              'exactly_lib.execution.partial_execution.impl.symbol_validation',
+                              'exactly_lib.symbol', 'exactly_lib.util.symbol_table',
+                              'exactly_lib.type_val_deps.sym_ref', 'exactly_lib.type_val_deps.types',
+                              'exactly_lib.impls.instructions.multi_phase.define_symbol',
+                              'exactly_lib.impls.types.string_', 'exactly_lib.impls.types.path',
+                              'exactly_lib.impls.types.list_', 'exactly_lib.impls.types.program'),
+                  seeds=[bytes([0] * 12), bytes([7, 1, 2, 3, 4, 0, 5, 9, 2, 0, 1, 3, 2, 2, 1, 0, 4, 4, 1, 7, 3, 1]),
+                         bytes(range(3, 160, 5))]),
 ]
